@@ -172,6 +172,8 @@ def lib_wire(s):
     return '|'.join([wire(D['ds']._latex_today()), t_up, t_nfc])
 
 def to_line(c):
+    if c.get('deep'):
+        return None
     if c['o'].get('fill') is not None:
         return None
     if any(0xD800 <= ord(ch) <= 0xDFFF for ch in c['s']):
@@ -252,6 +254,9 @@ UNI = ['a', 'e', 'i', 'A', 'O', 'ı', 'ȷ', 'é', 'ß', 'ŉ', 'α', 'Ω', '́', 
        'ǆ', 'ﬁ', '\U0001d400', '가', 'ᄀ', ' ', ' ', '1', 'İ', 'ς', 'ṡ', 'q̣̇']
 
 def cases(tier, rng):
+    # deep nesting: the interpreter's recursion limit is a runtime effect outside the model (known finding F18)
+    for s in ['{' * 200 + '}' * 200, '\\emph{' * 150 + '}' * 150]:
+        yield {'s': s, 'o': dict(DEFAULT_OPTS), 'deep': True}
     D = dbinfo()
     quick = tier == 'quick'
     sweep = option_sweep()
